@@ -17,7 +17,9 @@ with C27.blocking / C02.record); (RandomGen) the key that generate_random_sample
 and the key that extract_sequence_key composes for recording have the same component sequence -- the preamble
 index, one entry per round in order, and the leftover entry under the same `leftover > 0` guard -- and the recorded
 set is the one consulted (C06.record); (IterateGen) delegates only to IterateSATGen.sample / RandomGen.sample;
-synthesize_trials truncates, never pads or repeats.
+synthesize_trials truncates, never pads or repeats.  The clauses of C06 (counted space = drawn space), C14 (distinct
+variables for distinct choices) and C23 (exactly the factors outside every crossing are expanded into weight copies) are
+evaluated here as well, under their own rule names.
 """
 NOT_DECIDED = "min(requested, available) as a number; the documented exception for copies of a weighted level outside the crossing (duplicate-named levels are distinct solutions by design)."
 
